@@ -270,13 +270,16 @@ def main():
         sys.stderr.write("not in the table: %s\n" % missing)
 
     def one(name):
-        m = load_meta(name)
+        # long steps first, then re-read meta.json and merge (another seedmatrix process may have written meanwhile)
+        upd = {}
         if do_confirm:
-            m["confirmed"] = confirm(name)
-            sys.stderr.write("confirm %s: %s\n" % (name, json.dumps(m["confirmed"])[:300]))
+            upd["confirmed"] = confirm(name)
+            sys.stderr.write("confirm %s: %s\n" % (name, json.dumps(upd["confirmed"])[:300]))
         if do_run:
-            m["checks_run"] = run_checks(name)
-            sys.stderr.write("run %s: %s\n" % (name, "; ".join("%s exit %s" % (x["property"], x["exit"]) for x in m["checks_run"]["results"])))
+            upd["checks_run"] = run_checks(name)
+            sys.stderr.write("run %s: %s\n" % (name, "; ".join("%s exit %s" % (x["property"], x["exit"]) for x in upd["checks_run"]["results"])))
+        m = load_meta(name)
+        m.update(upd)
         save_meta(name, m)
 
     with ThreadPoolExecutor(max_workers=jobs) as ex:
